@@ -469,3 +469,80 @@ def parse_samples(raw):
         if line.strip():
             rows.append([float(x) for x in line.split()])
     return np.array(rows)
+
+
+# ------------------------------------------------------------------ lattice (CPMC) systems
+
+
+def lattice_adjacency(kind, n):
+    from ad_afqmc import lattices
+
+    if kind == "chain":
+        lat = lattices.one_dimensional_chain(n)
+    elif kind == "grid2x2":
+        lat = lattices.two_dimensional_grid(2, 2)
+    else:
+        raise ValueError(kind)
+    adj = np.array(lat.create_adjacency_matrix(), dtype=float)
+    return adj
+
+
+def build_cpmc_system(spec, harness=False):
+    """spec: dict(lattice, n_sites, nelec, u, u_1, dt, n_walkers, prop (repo class name),
+    trial ('uhf_cpmc'|'ghf_cpmc'), chol ('hubbard'|'zero'), stagger, theta, ham_seed)."""
+    _, jnp = _jax()
+    from ad_afqmc import hamiltonian, wavefunctions
+
+    s = System()
+    s.spec = spec
+    n = spec["n_sites"]
+    nelec = tuple(spec["nelec"])
+    rs = np.random.RandomState(spec["ham_seed"] % (2**32 - 1))
+    adj = lattice_adjacency(spec["lattice"], n)
+    h1 = -1.0 * adj
+    u = float(spec["u"])
+    if spec.get("chol", "hubbard") == "hubbard":
+        chol = np.zeros((n, n, n))
+        for i in range(n):
+            chol[i, i, i] = np.sqrt(u)
+    else:
+        chol = np.zeros((n, n, n))
+    ham_data = {
+        "h0": jnp.array(0.0),
+        "h1": jnp.array(np.array([h1, h1])),
+        "chol": jnp.array(chol.reshape(n, n * n)),
+        "ene0": 0.0,
+        "u": u,
+        "u_1": float(spec.get("u_1", 0.0)),
+        "hs_constant": float(np.sqrt(spec["dt"] * u)),
+    }
+    # symmetry-broken mean-field orbitals: staggered field of strength `stagger`
+    stag = spec.get("stagger", 0.0) * np.array([(-1.0) ** i for i in range(n)])
+    noise = rand_sym(rs, n, spec.get("noise", 0.0))
+    ca = np.linalg.eigh(h1 + np.diag(stag) + noise)[1][:, : nelec[0]]
+    cb = np.linalg.eigh(h1 - np.diag(stag) + noise)[1][:, : nelec[1]]
+    s.ham = hamiltonian.hamiltonian(n)
+    if spec["trial"] == "uhf_cpmc":
+        s.trial = wavefunctions.uhf_cpmc(n, nelec)
+        s.wave_data = {"mo_coeff": [jnp.array(ca), jnp.array(cb)]}
+    else:
+        th = spec.get("theta", 0.0)
+        g = np.zeros((2 * n, nelec[0] + nelec[1]))
+        g[:n, : nelec[0]] = np.cos(th) * ca
+        g[n:, : nelec[0]] = np.sin(th) * ca
+        g[:n, nelec[0] :] = -np.sin(th) * cb
+        g[n:, nelec[0] :] = np.cos(th) * cb
+        s.trial = wavefunctions.ghf_cpmc(n, nelec)
+        s.wave_data = {"mo_coeff": jnp.array(g)}
+    s.wave_data["rdm1"] = jnp.array(np.array([ca @ ca.T, cb @ cb.T]))
+    kw = dict(dt=spec["dt"], n_walkers=spec["n_walkers"])
+    if "nn" in spec["prop"]:
+        pairs = sorted({(min(i, j), max(i, j)) for i in range(n) for j in range(n) if adj[i, j] != 0 and i != j})
+        kw["neighbors"] = tuple(pairs)
+    s.prop = make_propagator(spec["prop"], harness=harness, **kw)
+    s.plain = make_propagator(spec["prop"], harness=False, **kw)
+    s.ham_data_raw = dict(ham_data)
+    hd = s.ham.build_measurement_intermediates(dict(ham_data), s.trial, s.wave_data)
+    s.ham_data = s.ham.build_propagation_intermediates(hd, s.prop, s.trial, s.wave_data)
+    s.init_walkers = [jnp.array(np.array([ca + 0.0j] * spec["n_walkers"])), jnp.array(np.array([cb + 0.0j] * spec["n_walkers"]))]
+    return s
